@@ -19,7 +19,8 @@ from typing import cast
 
 import elementpath.aliases as ta
 
-from elementpath.datatypes import AbstractDateTime, ArithmeticProxy, Duration, NumericProxy
+from elementpath.datatypes import AbstractDateTime, ArithmeticProxy, Duration, Float, \
+    NumericProxy
 from elementpath.xpath_nodes import XPathNode, ElementNode, DocumentNode
 
 from elementpath.exceptions import ElementPathTypeError
@@ -198,11 +199,16 @@ def evaluate__div_operator(self: XPathToken, context: ta.ContextType = None) \
             isinstance(divisor, (int, decimal.Decimal)):
         raise self.error('FOAR0001')
     elif dividend == 0 or math.isnan(dividend):
-        return math.nan
+        result = math.nan
     elif dividend > 0:
-        return float('-inf') if str(divisor).startswith('-') else float('inf')
+        result = float('-inf') if str(divisor).startswith('-') else float('inf')
     else:
-        return float('inf') if str(divisor).startswith('-') else float('-inf')
+        result = float('inf') if str(divisor).startswith('-') else float('-inf')
+
+    if isinstance(dividend, Float) and type(divisor) is not float \
+            or isinstance(divisor, Float) and type(dividend) is not float:
+        return Float(result)  # the result of a division on xs:float operands is an xs:float
+    return result
 
 
 @method(infix('mod', bp=45))
